@@ -382,3 +382,278 @@ Proof.
   split; [vm_compute; reflexivity|]. split; [left; reflexivity|].
   split; [reflexivity|]. split; reflexivity.
 Qed.
+
+(* ================================================================== 4. Monte-Carlo = mean over the draws *)
+From Coq Require Import Reals Lra.
+From Coquelicot Require Import Rbar Hierarchy RInt_gen Derive.
+From BV Require Import Model.EvalX Model.Deriv.
+
+Section MC.
+  Variable Phi : R -> R.
+  Local Open Scope R_scope.
+
+  (* T10b: the MonteCarlo node is the mean, over the draws of the observation, of the child
+     evaluated with the current-draw lookup set to each of them *)
+  Theorem mc_unfold e en :
+    evalX Phi (EUn MonteCarlo e) en =
+    xmean (map (fun d => evalX Phi e (with_draw en d)) (e_draws en)).
+  Proof. reflexivity. Qed.
+
+  Lemma xsum_cons a l : xsum (a :: l) = lift2 Rplus a (xsum l).
+  Proof. reflexivity. Qed.
+
+  Lemma xsum_reals vs : xsum (map XR vs) = XR (Rsum vs).
+  Proof.
+    induction vs as [|v vs IH]; [reflexivity|]. cbn [map]. rewrite xsum_cons, IH. reflexivity.
+  Qed.
+
+  Lemma xsum_real_inv l s : xsum l = XR s -> exists vs, l = map XR vs /\ s = Rsum vs.
+  Proof.
+    revert s; induction l as [|a l IH]; intros s.
+    - intros [= <-]. exists []. split; reflexivity.
+    - rewrite xsum_cons. destruct a as [x| |]; try discriminate.
+      destruct (xsum l) as [y| |] eqn:E; try discriminate. cbn [lift2]. intros [= <-].
+      destruct (IH y eq_refl) as (vs & -> & ->). exists (x :: vs). split; reflexivity.
+  Qed.
+
+  Lemma Forall2_map_XR {X} (f : X -> xval) l vs :
+    Forall2 (fun d v => f d = XR v) l vs -> map f l = map XR vs.
+  Proof. induction 1 as [|d v l vs H _ IH]; cbn [map]; [reflexivity | rewrite H, IH; reflexivity]. Qed.
+
+  Lemma map_XR_Forall2 {X} (f : X -> xval) l vs :
+    map f l = map XR vs -> Forall2 (fun d v => f d = XR v) l vs.
+  Proof.
+    revert vs; induction l as [|d l IH]; intros [|v vs]; cbn [map]; try discriminate; [constructor|].
+    intros [= H1 H2]. constructor; auto.
+  Qed.
+
+  Lemma xmean_reals v vs : xmean (map XR (v :: vs)) = XR (Rsum (v :: vs) / INR (List.length (v :: vs))).
+  Proof.
+    unfold xmean. change (map XR (v :: vs)) with (XR v :: map XR vs) at 1.
+    cbv iota. change (XR v :: map XR vs) with (map XR (v :: vs)).
+    rewrite xsum_reals, map_length. reflexivity.
+  Qed.
+
+  Theorem mc_is_mean e en vs :
+    Forall2 (fun d v => evalX Phi e (with_draw en d) = XR v) (e_draws en) vs ->
+    e_draws en <> [] ->
+    evalX Phi (EUn MonteCarlo e) en = XR (Rsum vs / INR (List.length vs)).
+  Proof.
+    intros H Hne. rewrite mc_unfold, (Forall2_map_XR _ _ _ H).
+    destruct vs as [|v vs]; [inversion H; congruence|]. apply xmean_reals.
+  Qed.
+
+  Lemma xmean_real_inv l x :
+    xmean l = XR x -> l <> [] /\ exists s, xsum l = XR s /\ x = s / INR (List.length l).
+  Proof.
+    unfold xmean. destruct l as [|a l]; [discriminate|]. intros H. split; [discriminate|].
+    destruct (xsum (a :: l)) as [s| |]; try discriminate. cbn [lift2] in H. injection H as <-. eauto.
+  Qed.
+
+  (* converse: a real Monte-Carlo value means a real value at every draw, and at least one draw *)
+  Theorem mc_real_inv e en x :
+    evalX Phi (EUn MonteCarlo e) en = XR x ->
+    e_draws en <> [] /\
+    exists vs, Forall2 (fun d v => evalX Phi e (with_draw en d) = XR v) (e_draws en) vs /\
+               x = Rsum vs / INR (List.length vs).
+  Proof.
+    rewrite mc_unfold. intros H. apply xmean_real_inv in H. destruct H as (Hne & s & Hs & ->).
+    split. { intros E. apply Hne. rewrite E. reflexivity. }
+    destruct (xsum_real_inv _ _ Hs) as (vs & HL & ->). exists vs.
+    split; [apply map_XR_Forall2; exact HL|].
+    assert (Hlen : List.length (map (fun d => evalX Phi e (with_draw en d)) (e_draws en)) = List.length vs)
+      by (rewrite HL, map_length; reflexivity).
+    rewrite Hlen. reflexivity.
+  Qed.
+
+  (* ---------------------------------------------------------------- T10f linearity *)
+  Lemma xsum_map_plus {X} (f g : X -> xval) l sa sb :
+    xsum (map f l) = XR sa -> xsum (map g l) = XR sb ->
+    xsum (map (fun d => lift2 Rplus (f d) (g d)) l) = XR (sa + sb).
+  Proof.
+    revert sa sb; induction l as [|d l IH]; intros sa sb; cbn [map].
+    - intros [= <-] [= <-]. cbn. f_equal. lra.
+    - rewrite !xsum_cons. destruct (f d) as [x| |]; try discriminate.
+      destruct (g d) as [y| |]; try discriminate.
+      destruct (xsum (map f l)) as [ra| |]; try discriminate.
+      destruct (xsum (map g l)) as [rb| |]; try discriminate.
+      cbn [lift2]. intros [= <-] [= <-]. rewrite (IH ra rb eq_refl eq_refl). cbn [lift2]. f_equal. lra.
+  Qed.
+
+  Lemma xsum_map_scale {X} (g : X -> xval) l c sb :
+    xsum (map g l) = XR sb ->
+    xsum (map (fun d => lift2 Rmult (XR c) (g d)) l) = XR (c * sb).
+  Proof.
+    revert sb; induction l as [|d l IH]; intros sb; cbn [map].
+    - intros [= <-]. cbn. f_equal. lra.
+    - rewrite !xsum_cons. destruct (g d) as [y| |]; try discriminate.
+      destruct (xsum (map g l)) as [rb| |]; try discriminate.
+      intros H. rewrite (IH rb eq_refl). cbn [lift2] in H. injection H as <-. cbn [lift2]. f_equal. lra.
+  Qed.
+
+  Lemma xmean_of_sum l s : l <> [] -> xsum l = XR s -> xmean l = XR (s / INR (List.length l)).
+  Proof. intros Hne Hs. unfold xmean. destruct l; [congruence|]. rewrite Hs. reflexivity. Qed.
+
+  Lemma INR_length_nz {X} (l : list X) : l <> [] -> INR (List.length l) <> 0.
+  Proof. destruct l; [congruence|]. intros _. apply not_0_INR. discriminate. Qed.
+
+  Theorem mc_plus a b en va vb :
+    evalX Phi (EUn MonteCarlo a) en = XR va -> evalX Phi (EUn MonteCarlo b) en = XR vb ->
+    evalX Phi (EUn MonteCarlo (EBin Plus a b)) en = XR (va + vb).
+  Proof.
+    rewrite !mc_unfold. intros Ha Hb.
+    apply xmean_real_inv in Ha, Hb. destruct Ha as (Hne & sa & Hsa & ->). destruct Hb as (_ & sb & Hsb & ->).
+    change (fun d => evalX Phi (EBin Plus a b) (with_draw en d))
+      with (fun d => lift2 Rplus (evalX Phi a (with_draw en d)) (evalX Phi b (with_draw en d))).
+    assert (Hd : e_draws en <> []) by (intros E; apply Hne; rewrite E; reflexivity).
+    rewrite (xmean_of_sum _ (sa + sb)).
+    - rewrite !map_length. f_equal. field. apply INR_length_nz. exact Hd.
+    - intros E. apply Hd. apply map_eq_nil in E. exact E.
+    - apply xsum_map_plus; assumption.
+  Qed.
+
+  (* a factor that does not depend on the draw comes out of the mean *)
+  Theorem mc_scale c a en cv va :
+    (forall d, In d (e_draws en) -> evalX Phi c (with_draw en d) = XR cv) ->
+    evalX Phi (EUn MonteCarlo a) en = XR va ->
+    evalX Phi (EUn MonteCarlo (EBin Times c a)) en = XR (cv * va).
+  Proof.
+    rewrite !mc_unfold. intros Hc Ha.
+    apply xmean_real_inv in Ha. destruct Ha as (Hne & sa & Hsa & ->).
+    assert (E : map (fun d => evalX Phi (EBin Times c a) (with_draw en d)) (e_draws en) =
+                map (fun d => lift2 Rmult (XR cv) (evalX Phi a (with_draw en d))) (e_draws en)).
+    { apply map_ext_in. intros d Hd.
+      change (evalX Phi (EBin Times c a) (with_draw en d))
+        with (lift2 Rmult (evalX Phi c (with_draw en d)) (evalX Phi a (with_draw en d))).
+      rewrite (Hc d Hd). reflexivity. }
+    assert (Hd : e_draws en <> []) by (intros E'; apply Hne; rewrite E'; reflexivity).
+    rewrite E, (xmean_of_sum _ (cv * sa)).
+    - rewrite !map_length. f_equal. field. apply INR_length_nz. exact Hd.
+    - intros E'. apply Hd. apply map_eq_nil in E'. exact E'.
+    - apply xsum_map_scale. exact Hsa.
+  Qed.
+
+  (* the mean of a quantity that is the same at every draw is that quantity *)
+  Theorem mc_const e en v :
+    e_draws en <> [] ->
+    (forall d, In d (e_draws en) -> evalX Phi e (with_draw en d) = XR v) ->
+    evalX Phi (EUn MonteCarlo e) en = XR v.
+  Proof.
+    intros Hne H. rewrite (mc_is_mean e en (map (fun _ => v) (e_draws en))); [|
+      clear Hne; induction (e_draws en) as [|d l IH]; cbn [map]; constructor;
+        [apply H; left; reflexivity | apply IH; intros d' Hd'; apply H; right; exact Hd'] | exact Hne].
+    rewrite map_length. f_equal.
+    assert (Hs : forall (l : list lookup), Rsum (map (fun _ => v) l) = INR (List.length l) * v).
+    { induction l as [|d l IH]; [cbn; lra|]. cbn [map List.length]. rewrite S_INR.
+      change (Rsum (v :: map (fun _ : lookup => v) l)) with (v + Rsum (map (fun _ : lookup => v) l)).
+      rewrite IH. lra. }
+    rewrite Hs. field. apply INR_length_nz. exact Hne.
+  Qed.
+End MC.
+
+(* ---------------------------------------------------------------- engine environment = own series *)
+Section EngineSpec.
+  Local Open Scope nat_scope.
+  Variable A : Type.
+  Variable S : Type.
+  Variable val : A -> R.
+
+  (* T10b (engine side): at observation o, the r-th lookup the engine's loop goes through maps every
+     draw variable d of the formulas to cell [o][r] of the series produced by the generator of d's type *)
+  Theorem engine_draws_own_series native user fs cols N R s t table s' o :
+    prepare_draws A S native user fs cols N R s = Some (t, Ok (table, s')) -> o < N ->
+    List.length (engine_draws A val t table o R) = R /\
+    forall d, In d (flat_map (names_of_kind KDraws) fs) ->
+      exists ty g st m st',
+        assoc d (draw_types fs) = Some ty /\ find_generator A S native user ty = Some g /\
+        g st N R = (m, st') /\
+        forall r, r < R ->
+          exists L x, nth_error (engine_draws A val t table o R) r = Some L /\
+                      get2 A m o r = Some x /\ L d = Some (val x).
+  Proof.
+    intros Hp Ho. split; [unfold engine_draws; rewrite map_length, seq_length; reflexivity|].
+    intros d Hd. destruct (table_indexing A S _ _ _ _ _ _ _ _ _ _ _ Hp Hd)
+      as (_ & k & ty & g & st & m & st' & H1 & H2 & H3 & H4 & H5 & H6 & H7 & H8).
+    exists ty, g, st, m, st'. repeat (split; [assumption|]). intros r Hr.
+    destruct (H8 o r Ho Hr) as [E Hn]. destruct (get2 A m o r) as [x|] eqn:Ex; [|congruence].
+    exists (draw_lookup A val t table o r), x. split; [|split; [reflexivity|]].
+    - unfold engine_draws. rewrite (map_nth_error _ _ _ (nth_error_seq 0 R r Hr)). reflexivity.
+    - unfold draw_lookup. rewrite E. reflexivity.
+  Qed.
+End EngineSpec.
+
+(* ================================================================== 5. Derive *)
+Lemma existsb_eqb_In n l : existsb (String.eqb n) l = true <-> In n l.
+Proof.
+  rewrite existsb_exists. split.
+  - intros (x & Hx & E). apply String.eqb_eq in E. subst. exact Hx.
+  - intros H. exists n. split; [exact H | apply String.eqb_refl].
+Qed.
+
+(* the kind of the name is the class of the table it belongs to *)
+Lemma wrt_of_spec t n w :
+  wrt_of t n = Some w ->
+  (w = WBeta n /\ In n (t_free t ++ t_fixed t)) \/ (w = WVar n /\ In n (t_vars t)) \/
+  (w = WRV n /\ In n (t_rv t)).
+Proof.
+  unfold wrt_of.
+  destruct (existsb (String.eqb n) (t_free t ++ t_fixed t)) eqn:E1.
+  { intros [= <-]. left. split; [reflexivity | apply existsb_eqb_In; exact E1]. }
+  destruct (existsb (String.eqb n) (t_vars t)) eqn:E2.
+  { intros [= <-]. right; left. split; [reflexivity | apply existsb_eqb_In; exact E2]. }
+  destruct (existsb (String.eqb n) (t_rv t)) eqn:E3; [|discriminate].
+  intros [= <-]. right; right. split; [reflexivity | apply existsb_eqb_In; exact E3].
+Qed.
+
+Section DeriveP.
+  Variable Phi : R -> R.
+  (* correctness of the symbolic derivative: Proofs/DerivP.v (property C02, T02a) *)
+  Hypothesis D_correct : forall ws w en x0 e, In w ws -> dom Phi ws (upd en w x0) e ->
+    is_derive (fun x => valR (evalX Phi e (upd en w x))) x0 (valR (evalX Phi (D w e) (upd en w x0))).
+  Hypothesis D_value : forall ws w en x0 e, In w ws -> dom Phi ws (upd en w x0) e ->
+    exists d, evalX Phi (D w e) (upd en w x0) = XR d.
+
+  (* T10e: at a point where the child is smooth, the value of Derive(child, name) is the partial
+     derivative of the child's value in the named parameter / variable, everything else fixed *)
+  Theorem derive_is_partial t n w child en x0 :
+    wrt_of t n = Some w -> dom Phi (w :: nil) (upd en w x0) child ->
+    exists d, derive_value Phi t n child (upd en w x0) = XR d /\
+              is_derive (fun x => valR (evalX Phi child (upd en w x))) x0 d.
+  Proof.
+    intros Hw Hd. unfold derive_value. rewrite Hw.
+    destruct (D_value (w :: nil) w en x0 child (or_introl eq_refl) Hd) as [d Hv].
+    exists d. split; [exact Hv|].
+    pose proof (D_correct (w :: nil) w en x0 child (or_introl eq_refl) Hd) as H. rewrite Hv in H. exact H.
+  Qed.
+End DeriveP.
+
+(* ================================================================== 6. Integrate (partial) *)
+Section GH.
+  Local Open Scope R_scope.
+
+  Lemma Rsum_cons a l : Rsum (a :: l) = a + Rsum l.
+  Proof. reflexivity. Qed.
+
+  (* the engine's rule is linear in the integrand *)
+  Theorem gh_rule_linear nodes f g a b :
+    gh_rule nodes (fun x => a * f x + b * g x) = a * gh_rule nodes f + b * gh_rule nodes g.
+  Proof.
+    unfold gh_rule, gh_quad, gh_unweighted. induction nodes as [|[x w] l IH].
+    - cbn [map]. unfold Rsum. cbn [fold_right]. ring.
+    - cbn [map fst snd]. rewrite !Rsum_cons, IH. ring.
+  Qed.
+
+  (* partial: IF the node table integrates g(x) exp(-x^2) exactly for g = f(x) exp(x^2), the engine's
+     value is the integral of f over the real line.  That the 100-point table has this property to
+     working precision for smooth, normally decaying integrands is a numerical fact of the external
+     engine (sampled by stream `integrate`), not a theorem. *)
+  Theorem integrate_is_integral_partial nodes f :
+    is_integral (fun x => gh_unweighted f x * exp (- (x * x))) (gh_quad nodes (gh_unweighted f)) ->
+    is_integral f (gh_rule nodes f).
+  Proof.
+    unfold is_integral, gh_rule. apply is_RInt_gen_ext.
+    apply filter_forall. intros [a b] x _. unfold gh_unweighted.
+    rewrite Rmult_assoc, <- exp_plus. replace (x * x + - (x * x)) with 0 by lra.
+    rewrite exp_0. lra.
+  Qed.
+End GH.
